@@ -64,11 +64,13 @@ def run(ctx):
             gone_early = [p for p in young if p not in still]
             if gone_early:
                 violations.append({"what": "young temporary debris was removed by the next operations: %s" % gone_early, "classification": {"kind": "young-debris-removed"}, "replay": replay})
+            # a directory is maintained when maintenance lists IT (not when it happens to list some
+            # temp directory): the debris to reclaim is the one in the temp directory of that directory
             maintained_dirs = set()
             for stp in r3.steps:
                 for e in stp["events"]:
-                    if e["call"] == "opendir" and e["path"].endswith(".kismet_temp") and not e["err"]:
-                        maintained_dirs.add(e["path"])
+                    if e["call"] == "opendir" and not e["path"].endswith(".kismet_temp") and not e["err"]:
+                        maintained_dirs.add(e["path"] + "/.kismet_temp")
             old = [l.split(" ")[0] for l in r3.snaps[-1] if l.split(" ")[1] == "f" and ".kismet_temp/" in l.split(" ")[0] and l.split(" ")[0].rsplit("/", 1)[0] in maintained_dirs]
             if old:
                 violations.append({"what": "debris older than the limit survived maintenance of its directory: %s" % old, "classification": {"kind": "old-debris-kept"}, "replay": replay})
